@@ -21,7 +21,12 @@ func init() {
 		Assume:  []string{"memfs computes each call's receiver path from Renamed notifications", "hard links are kept out of the workload", "one scenario at a time per shard process so that 'process parked' is meaningful"},
 		Shards:  shards(8, 16),
 		Timeout: timeout(8*time.Minute, 45*time.Minute),
-		Run:     func(c *ev.Ctx) { runMatrix(c, "C07"); c07DoubleOpen(c); c07SimultaneousFirstWalks(c) },
+		Run: func(c *ev.Ctx) {
+			runMatrix(c, "C07")
+			c07DoubleOpen(c)
+			c07CreateBehindUnlink(c)
+			c07SimultaneousFirstWalks(c)
+		},
 	})
 }
 
@@ -468,5 +473,99 @@ func c07SimultaneousFirstWalks(c *ev.Ctx) {
 		for _, s := range conns {
 			s.clunk(1)
 		}
+	}
+}
+
+// c07CreateBehindUnlink: a Tlcreate of name n is received while a Tunlinkat (or
+// Tremove, or a rename away) of the existing entry n is inside the backend, and
+// succeeds once that is over. The fid it bound and a fid walked to the new
+// file afterwards are two fids on one path: a write-class call through one and
+// a read-class call through the other exclude each other.
+func c07CreateBehindUnlink(c *ev.Ctx) {
+	for i, how := range []string{"unlinkat", "remove", "renameat-away"} {
+		if !c.Mine(i + 11) {
+			continue
+		}
+		c.Begin("C07 create behind " + how)
+		w, ok := newConcWorld(2)
+		if !ok {
+			c.Inconclusive("create-behind world")
+			w.close()
+			continue
+		}
+		ca, cb := w.conns[0], w.conns[1]
+		fd1, ok1 := ca.fidAt("/a", 'u', true)
+		fd2, ok2 := ca.fidAt("/a", 'u', true)
+		fg, ok3 := ca.fidAt("/a/g", 'u', false)
+		if !ok1 || !ok2 || !ok3 {
+			c.Inconclusive("create-behind setup")
+			w.close()
+			continue
+		}
+		method := "UnlinkAt"
+		if how == "renameat-away" {
+			method = "RenameAt"
+		}
+		g := w.fs.Hold(memfs.Match{Method: method}, 1)
+		from := ca.p.NReplies()
+		switch how {
+		case "unlinkat":
+			ca.p.Send(wire.Tunlinkat, 600, fd1, "g", u(0))
+		case "remove":
+			ca.p.Send(wire.Tremove, 600, fg)
+		default:
+			ca.p.Send(wire.Trenameat, 600, fd1, "g", u(801), "gone")
+		}
+		if o, _ := g.WaitParked(1); o != quiesce.CondMet {
+			g.Release()
+			c.Case("create-behind:"+how+":not-parked", false)
+			w.close()
+			continue
+		}
+		ca.p.Send(wire.Tlcreate, 601, fd2, "g", u(2), u(0644), u(0))
+		quiesce.WaitUntil(func() bool { return ca.p.HasReplyFrom(601, from) != nil }, wd) // it queues
+		g.Release()
+		r0, okA, _, _ := ca.p.WaitTag(600, from)
+		r1, okB, o, d := ca.p.WaitTag(601, from)
+		if !okA || !okB {
+			hang(c, o, d, "C06:request-never-answered:create-behind-"+how, nil)
+			w.close()
+			continue
+		}
+		if r0.Msg.Type == wire.Rlerror || r1.Msg.Type != wire.Rlcreate {
+			c.Case("create-behind:"+how+":refused", false)
+			w.close()
+			continue
+		}
+		fx, okx := cb.fidAt("/a/g", 'u', false)
+		if !okx {
+			c.Inconclusive("create-behind: walk to the created file failed")
+			w.close()
+			continue
+		}
+		w.fs.Overlaps()
+		// a read-class call through the created fid is held in the backend; a
+		// write-class call through the walked fid arrives
+		g2 := w.fs.Hold(memfs.Match{Method: "WriteAt", Path: "/a/g"}, 1)
+		fromA, fromB := ca.p.NReplies(), cb.p.NReplies()
+		ca.p.Send(wire.Twrite, 602, fd2, u(0), []byte("zz"))
+		if o, _ := g2.WaitParked(1); o != quiesce.CondMet {
+			g2.Release()
+			c.Case("create-behind:"+how+":write-not-parked", false)
+			w.close()
+			continue
+		}
+		cb.p.Send(wire.Tsetattr, 603, fx, u(1), u(0600), u(0), u(0), u(0), u(0), u(0), u(0), u(0))
+		quiesce.WaitUntil(func() bool { return cb.p.HasReplyFrom(603, fromB) != nil }, wd)
+		g2.Release()
+		ca.p.WaitTag(602, fromA)
+		cb.p.WaitTag(603, fromB)
+		for _, ov := range w.fs.Overlaps() {
+			c.Violation("C07:overlap:created-fid-and-walked-fid-do-not-exclude-each-other:"+how, map[string]any{"overlap": ov.Desc})
+			break
+		}
+		c.Case("create-behind:"+how, true)
+		c.Count("create_behind_rounds", 1)
+		w.close()
 	}
 }
